@@ -15,7 +15,7 @@ from gen import Gen
 from common import cerberus, real_error, canon_errors
 
 LEVEL = "proof"
-COQ_FILES = ['theories/Model/Validate.v', 'theories/Proofs/RefProofs.v', 'theories/Properties/C14.v']
+COQ_FILES = ['theories/Model/Validate.v', 'theories/Model/Normalize.v', 'theories/Proofs/RefProofs.v', 'theories/Proofs/RefLevel.v', 'theories/Proofs/NormLevel.v', 'theories/Properties/C14.v']
 FACT_GROUPS = ['F6']
 ALLOWED_AXIOMS = []
 TRUSTED_BASE = [
@@ -172,6 +172,35 @@ def run(ctx):
             violations.append({"signature": ("accept" if "accepted" in d else "outcome") + ":allow_unknown-config",
                                "what": "allow_unknown given by name: " + d,
                                "replay": {"allow_unknown": common.jval(rules), "documents": [common.jval(doc)]}})
+    # one name in BOTH registries (they are separate name spaces): a rules set 'N' that wraps the schema 'N'
+    for i in range(60 if not thorough else 600):
+        sub = g.schema(2, ['x', 'y', 'z'], 3)
+        if not sub or not refs.is_mapping_schema(sub):
+            continue
+        rset = {'type': 'dict', 'schema': sub}
+        where = rng.choice(['field', 'list-schema', 'valuesrules', 'items', 'dict-schema-field'])
+        mk = {'field': lambda r: {'p': r}, 'list-schema': lambda r: {'p': {'type': 'list', 'schema': r}},
+              'valuesrules': lambda r: {'p': {'type': 'dict', 'valuesrules': r}}, 'items': lambda r: {'p': {'type': 'list', 'items': [r]}},
+              'dict-schema-field': lambda r: {'p': {'type': 'dict', 'schema': {'q': r}}}}[where]
+        one = g.doc_for(sub, p_present=0.8)
+        wrapd = {'field': lambda d: {'p': d}, 'list-schema': lambda d: {'p': [d, copy.deepcopy(d)]}, 'valuesrules': lambda d: {'p': {'k': d}},
+                 'items': lambda d: {'p': [d]}, 'dict-schema-field': lambda d: {'p': {'q': d}}}[where]
+        docs = [wrapd(one), wrapd({})]
+        cfg = g.config()
+        a = observe(mk(copy.deepcopy(rset)), cfg, docs)
+        if a["accepted"] is not True:
+            continue
+        module_level = rng.random() < 0.4
+        b = observe(mk('N'), cfg, docs, refs.make_registries({'N': {'type': 'dict', 'schema': 'N'}}, {'N': copy.deepcopy(sub)}), module_level)
+        cases += 1
+        dist["same-name-in-both-registries@" + where] += 1
+        d = compare(a, b)
+        if d:
+            violations.append({"signature": "same-name:" + ("accept" if "accepted" in d else "outcome"),
+                               "what": "a rules set and a schema registered under one name (%s position): %s" % (where, d),
+                               "replay": {"inline": common.jval(mk(rset)), "referenced": common.jval(mk('N')), "rules_set_registry": common.jval({'N': {'type': 'dict', 'schema': 'N'}}),
+                                          "schema_registry": common.jval({'N': sub}), "config": common.jval(cfg), "module_level": module_level,
+                                          "documents": [common.jval(x) for x in docs]}})
     # top-level field rules given by name beside OTHER top-level fields written with shorthands / deprecated names /
     # spaces in their sub-structure: the reference must not disturb the expansion of its siblings
     from props import c15
